@@ -140,8 +140,8 @@ CLAIMED.update({
 
 CLAIMED.update({
     "C05": dict(cat="other", design="DESIGN.md §11.7 C05",
-                text="Unit-symbolic round trip: a catalogue of verified modules made of custom-format operations of arith, cf, func, memref, scf, builtin and llvm (generic text, 34 modules) and instances of 10 generated declarative-format operations (default-valued properties bare/anchored/in attr-dict, optional groups, variadic and optional operands/results, dense arrays, symbol names, strings, typed attributes) carry SYMBOLIC payloads: integer constants, dense/array elements, switch case values, static offsets, alignments, attribute values over the full range of their type, comparison predicates, symbol names and strings as symbolic text. The real printer prints the custom form to a symbolic stream, the real parser parses it back in a fresh context, and z3 decides for all payloads that it parses, gives the same module, prints the same again, and agrees with the parse of the generic form.",
-                note="Partial: 7 of ~80 dialects plus generated operations; the .mlir corpus is concrete and outside. With several integer payloads one at a time is wide, the others range over [-9,9]. Names/strings: 1-2 ASCII cells (non-ASCII is the C06 finding). Floats are concrete. Diagnostic rendering is stubbed. Nine defects repaired (DESIGN 11.4), four name-coincidence classes recorded as known findings."),
+                text="Unit-symbolic round trip: a catalogue of verified modules made of custom-format operations of arith, cf, func, memref, scf, builtin, llvm, vector, tensor and affine (generic text, 37 modules) and instances of 10 generated declarative-format operations (default-valued properties bare/anchored/in attr-dict, optional groups, variadic and optional operands/results, dense arrays, symbol names, strings, typed attributes) carry SYMBOLIC payloads: integer constants, dense/array elements, switch case values, static offsets, alignments, attribute values over the full range of their type, comparison predicates, symbol names and strings as symbolic text. The real printer prints the custom form to a symbolic stream, the real parser parses it back in a fresh context, and z3 decides for all payloads that it parses, gives the same module, prints the same again, and agrees with the parse of the generic form.",
+                note="Partial: 10 of ~80 dialects plus generated operations; the .mlir corpus is concrete and outside. With several integer payloads one at a time is wide, the others range over [-9,9]. Names/strings: 1-2 ASCII cells (non-ASCII is the C06 finding). Floats are concrete. Diagnostic rendering is stubbed. Eleven defects repaired (DESIGN 11.4), four name-coincidence classes recorded as known findings."),
     "C29": dict(cat="other", design="DESIGN.md §11.6 C29",
                 text="Unit-symbolic (M1) on names: a nested symbol-table skeleton (top module, named module, module nested in it, unnamed module; functions and plain ops inside) carries SYMBOLIC symbol names (one-cell symbolic text each, so the solver ranges over every equality pattern between the six names and the 1-3 components of the reference) and enumerated visibilities; a flat or nested reference is looked up from seven starting operations with SymbolTable.lookup_nearest_symbol_from (direct), SymbolTableCollection (cached, queried twice) and traits.SymbolTable.lookup_symbol; z3 decides for all names that each returns exactly the operation designated by a declarative reading of the nesting rules (nearest enclosing table; each further component resolved inside the previous result, which must be a table; private symbols reached through nesting refused) and that the three agree.",
                 note="Originally listed as not applicable ('only equality patterns of names'); with symbolic text the solver decides exactly those patterns, so it is claimed. Name uniqueness within a table (the verified-module precondition) is an assumption because the trait's verifier hashes names. The skeleton shape (4 tables, 6 symbols) is fixed."),
